@@ -28,6 +28,11 @@ CLAIMS = {
          '(2) src/util/polysmallmod.rs: all 51 coefficient-wise primitives (modulo, negate, add, sub, scalar and operand variants, dyadic product; component, _p and _ps level, in-place and not) return word by word the exact residue, hence canonical residues. '
          '(3) The mod-switch / rescale API of the evaluator refuses invalid operands and wrong representations and its three call forms satisfy the same result relation (shared with C05). '
          'Not covered yet: validity of the results of add/sub/multiply/relinearize/Galois operations, key validity checkers.', '5 C06'),
+ 'C09': ('Local contracts of the NTT code, for every modulus 2 <= q < 2^61: the lazy arithmetic (add, sub, mul_root, mul_scalar, guard) keeps values in the documented ranges and congruent; the forward (Harvey) butterfly maps x,y in [0,4q) to '
+         'x+wy, x-wy (mod q) in [0,4q) and the inverse (Gentleman-Sande) butterfly maps [0,2q) to x+y, (x-y)w in [0,2q) - both extracted as fragments of the innermost loop bodies of transform_to_rev / transform_from_rev; '
+         'ntt_negacyclic_harvey / inverse_ntt_negacyclic_harvey reduce the lazy result to the exact canonical residue; dyadic products are exact (unit c06_polymod2). '
+         'ASSUMED / not covered: the loop nest of the transform (which index pairs meet which root, iterator closures over split_at_mut) is an uninterpreted function with an assumed range contract, so that the transform equals the evaluation map, '
+         'is inverted by the inverse transform and turns negacyclic convolution into pointwise products is NOT decided; root-table construction and minimal-root selection not under contract yet.', '5 C09'),
  'C10': ('RNSTool::divide_and_round_q_last_inplace and mod_t_and_divide_q_last_inplace are proved, for every base size, degree, coefficient and canonical input, to return in each word exactly the residue formula '
          'of the algorithm (all lazy additions shown free of overflow, every slice in bounds), and two spec-level theorems give the integer reading: if the input residues are those of one integer X then each output word is '
          'floor((X + q_k/2)/q_k) mod q_i (round to nearest, identically in every component), respectively Y mod q_i with q_k*Y = X (mod t) for the BGV variant. '
